@@ -11,7 +11,8 @@
 EXTENDS Loader
 
 CONSTANTS MaxOps, EnforceNew, Variant, StartWithMain,
-          Overwrite      \* the enforcer's overwrite mode (TRUE: default)
+          Overwrite,     \* the enforcer's overwrite mode (TRUE: default)
+          StartReg       \* TRUE: every default is registered before the first load; FALSE: none yet (RegisterNext)
 
 MCNames == {"n", "n2", "o"}
 MCDirs == <<"d1", "d2", "d3">>                 \* d3 is configured but never exists
@@ -31,8 +32,10 @@ MCDefaults ==
 Absent == [exists |-> FALSE, mtime |-> 0, content |-> NoRules]
 
 VARIABLES fs, dirs, clock, st, synced, lastop,
-          removed    \* history: some definition has been taken out of a file since the start
-vars == <<fs, dirs, clock, st, synced, lastop, removed>>
+          removed,   \* history: some definition has been taken out of a file since the start
+          nreg,      \* how many of the defaults have been registered so far
+          enfnew     \* current value of the enforce_new_defaults option
+vars == <<fs, dirs, clock, st, synced, lastop, removed, nreg, enfnew>>
 
 Mutable == {"main", "d1/a", "d1/b", "d2/a"}
 DirOfFile(f) == CASE f \in {"d1/a", "d1/b", "d1/.hidden", "d1/sub"} -> "d1" [] f = "d2/a" -> "d2" [] OTHER -> "none"
@@ -57,6 +60,8 @@ Init ==
   /\ synced = FALSE
   /\ lastop = "init"
   /\ removed = FALSE
+  /\ nreg = IF StartReg THEN Len(Defaults) ELSE 0
+  /\ enfnew = EnforceNew
 
 \* every configuration of the files at once (no history): C09's quantifier
 ContentKinds == {"absent", "new", "old", "alias", "both", "oldsame"}
@@ -67,7 +72,7 @@ InitAll ==
                LET k == IF f \in Mutable THEN kind[f] ELSE ign[f] IN
                IF k = "absent" THEN Absent ELSE [exists |-> TRUE, mtime |-> Order[f], content |-> Content(k, f, Order[f])]]
   /\ dirs = [d \in {"d1", "d2", "d3"} |-> [exists |-> d # "d3", mtime |-> 7]]
-  /\ clock = 8 /\ st = InitLoader /\ synced = FALSE /\ lastop = "init" /\ removed = FALSE
+  /\ clock = 8 /\ st = InitLoader /\ synced = FALSE /\ lastop = "init" /\ removed = FALSE /\ nreg = Len(Defaults) /\ enfnew = EnforceNew
 
 BumpDir(f, t) == IF DirOfFile(f) = "none" THEN dirs ELSE [dirs EXCEPT ![DirOfFile(f)].mtime = t]
 
@@ -76,36 +81,45 @@ Write(f, kind) ==
   /\ fs' = [fs EXCEPT ![f] = [exists |-> TRUE, mtime |-> clock + 1, content |-> Content(kind, f, clock + 1)]]
   /\ removed' = (removed \/ (fs[f].exists /\ Drops(fs[f].content, Content(kind, f, clock + 1))))
   /\ dirs' = IF fs[f].exists THEN dirs ELSE BumpDir(f, clock + 1)         \* creating an entry moves the directory mtime
-  /\ clock' = clock + 1 /\ synced' = FALSE /\ lastop' = "write" /\ UNCHANGED st
+  /\ clock' = clock + 1 /\ synced' = FALSE /\ lastop' = "write" /\ UNCHANGED <<st, nreg, enfnew>>
 Empty(f) ==
   /\ fs[f].exists
   /\ fs' = [fs EXCEPT ![f] = [exists |-> TRUE, mtime |-> clock + 1, content |-> NoRules]]
   /\ removed' = (removed \/ ~IsEmptyRules(fs[f].content))
-  /\ clock' = clock + 1 /\ synced' = FALSE /\ lastop' = "empty" /\ UNCHANGED <<st, dirs>>
+  /\ clock' = clock + 1 /\ synced' = FALSE /\ lastop' = "empty" /\ UNCHANGED <<st, dirs, nreg, enfnew>>
 Touch(f) ==
   /\ fs[f].exists
   /\ fs' = [fs EXCEPT ![f].mtime = clock + 1]
-  /\ clock' = clock + 1 /\ synced' = FALSE /\ lastop' = "touch" /\ UNCHANGED <<st, dirs, removed>>
+  /\ clock' = clock + 1 /\ synced' = FALSE /\ lastop' = "touch" /\ UNCHANGED <<st, dirs, removed, nreg, enfnew>>
 Delete(f) ==
   /\ fs[f].exists
   /\ fs' = [fs EXCEPT ![f] = Absent]
   /\ dirs' = BumpDir(f, clock + 1)
   /\ removed' = (removed \/ ~IsEmptyRules(fs[f].content))
-  /\ clock' = clock + 1 /\ synced' = FALSE /\ lastop' = "delete" /\ UNCHANGED st
+  /\ clock' = clock + 1 /\ synced' = FALSE /\ lastop' = "delete" /\ UNCHANGED <<st, nreg, enfnew>>
 \* an entry that is not a policy file (dot-file, sub-directory) appears or changes
 TouchIgnored(f) ==
   /\ fs' = [fs EXCEPT ![f] = [exists |-> TRUE, mtime |-> clock + 1, content |-> Content("new", f, clock + 1)]]
   /\ dirs' = IF fs[f].exists THEN dirs ELSE BumpDir(f, clock + 1)
-  /\ clock' = clock + 1 /\ synced' = FALSE /\ lastop' = "ignored" /\ UNCHANGED <<st, removed>>
+  /\ clock' = clock + 1 /\ synced' = FALSE /\ lastop' = "ignored" /\ UNCHANGED <<st, removed, nreg, enfnew>>
+\* Enforcer.register_default called after the enforcer has been in use
+RegisterNext ==
+  /\ nreg < Len(Defaults) /\ nreg' = nreg + 1
+  /\ synced' = FALSE /\ lastop' = "register" /\ UNCHANGED <<fs, dirs, clock, st, removed, enfnew>>
+\* the enforce_new_defaults option is changed while the enforcer lives; merged defaults are
+\* recomputed at the next rebuild, so the comparison with a fresh enforcer waits for a forced load
+SetOption(v) ==
+  /\ enfnew' = v /\ synced' = FALSE /\ lastop' = "setopt" /\ UNCHANGED <<fs, dirs, clock, st, removed, nreg>>
 Load(force) ==
-  /\ st' = LoadRulesOv(st, fs, dirs, force, EnforceNew, Overwrite)
+  /\ st' = LoadRulesOvN(st, fs, dirs, force, enfnew, Overwrite, nreg)
   /\ synced' = TRUE /\ lastop' = (IF force THEN "forceload" ELSE "load")
-  /\ UNCHANGED <<fs, dirs, clock, removed>>
+  /\ UNCHANGED <<fs, dirs, clock, removed, nreg, enfnew>>
 
 Next == \/ \E f \in Mutable : \/ \E k \in {"new", "old", "alias", "both", "fixed"} : Write(f, k)
                               \/ Empty(f) \/ Touch(f) \/ Delete(f)
         \/ \E f \in {"d1/.hidden", "d1/sub"} : TouchIgnored(f)
         \/ Load(FALSE) \/ Load(TRUE)
+        \/ RegisterNext
 Spec == Init /\ [][Next]_vars
 SpecAll == InitAll /\ [][Load(FALSE) \/ Load(TRUE)]_vars
 Bounded == clock <= MaxOps
@@ -114,11 +128,11 @@ Bounded == clock <= MaxOps
 \* mode (overwrite off) removed definitions persist by design, so only the claims
 \* that do not compare with a fresh enforcer apply there
 DefaultMode == Overwrite
-Fresh == LoadRulesOv(InitLoader, fs, dirs, FALSE, EnforceNew, Overwrite)
+Fresh == LoadRulesOvN(InitLoader, fs, dirs, FALSE, enfnew, Overwrite, nreg)
 
 \* C09: what a newly started enforcer computes is the layering sentence
-FreshIsLayered == Decisions(Fresh.rules) = Decisions(FreshPolicy(fs, dirs, EnforceNew))
-FreshExact == Fresh.rules = FreshPolicy(fs, dirs, EnforceNew)
+FreshIsLayered == Decisions(Fresh.rules) = Decisions(FreshPolicyN(fs, dirs, enfnew, nreg))
+FreshExact == Fresh.rules = FreshPolicyN(fs, dirs, enfnew, nreg)
 \* C10: the long-lived enforcer, right after a load, decides as a fresh one
 LongLivedEqualsFresh == (synced /\ DefaultMode) => Decisions(st.rules) = Decisions(Fresh.rules)
 LongLivedExact == (synced /\ DefaultMode) => st.rules = Fresh.rules
